@@ -84,7 +84,8 @@ def run(ctx):
         if (deg, mi, sec) != (fl["deg"], fl["min"], fl["sec"]) or (neg != (c["cc"] < 0) and (deg, mi, sec) != (0, 0, 0)):
             ctx.violation("angle|fields", "gon2deg(%s gon, prec %d) = %r, exact fields are %d-%02d-%s (in 1e-%d seconds)" % (c["cc"] / 1e4, p, r_["dms"], fl["deg"], fl["min"], fl["sec"], p),
                           replay={"cc": c["cc"], "prec": p})
-        if not r_["ok"] or abs(abs(r_["back"]) - abs(c["cc"]) / 1e4) > 0.5 * 10 ** (-p) / 3240 * 1.0001 + 1e-12:
+        # signed comparison; a value that rounds to 0-00-00 has no sign to carry
+        if not r_["ok"] or abs(r_["back"] - (c["cc"] / 1e4 if (deg, mi, sec) != (0, 0, 0) else 0.0)) > 0.5 * 10 ** (-p) / 3240 * 1.0001 + 1e-12:
             ctx.violation("angle|roundtrip", "deg2gon(gon2deg(%s gon, prec %d) = %r) = %r" % (c["cc"] / 1e4, p, r_["dms"], r_["back"]))
     # ---- latitude() / longitude() print the same angle in degrees-minutes-seconds (used for the geodetic coordinates of gama-g3)
     lp = os.path.join(ctx.outdir, "latlong.txt")
